@@ -244,8 +244,23 @@ func ruleWhoMayWrite(c *core.Ctx) {
 			}
 			name := core.FullName(cs.Callee)
 			key := fmt.Sprintf("%s/%s", c.FuncName(d), name)
+			// an audit of a site also covers an unexported helper that only the audited function calls
+			inherited := ""
+			if _, ok := backendPrimSites[key]; !ok {
+				for up, hop := d, 0; hop < 2 && inherited == ""; hop++ {
+					up = soleCaller(c, up)
+					if up == nil {
+						break
+					}
+					if r, ok := backendPrimSites[fmt.Sprintf("%s/%s", c.FuncName(up), name)]; ok {
+						inherited = r
+					}
+				}
+			}
 			if r, ok := backendPrimSites[key]; ok {
 				c.OK(rule, key, cs.Call.Pos(), "audited site: "+r)
+			} else if inherited != "" {
+				c.OK(rule, key, cs.Call.Pos(), "helper of an audited site: "+inherited)
 			} else if r, ok := backendDirectPrims[name]; ok {
 				c.OK(rule, key, cs.Call.Pos(), r)
 			} else {
